@@ -234,6 +234,10 @@ func (c *Context) ask(system bool, recipient vivid.ActorRef, message vivid.Messa
 		c.system.removeFuture(agentRef)
 	})
 	c.system.appendFuture(agentRef, futureIns)
+	if futureIns.Closed() {
+		// 超时极短时，Future 可能在注册之前就已超时并执行过关闭回调（此时尚无可移除的注册），需在此补偿移除，否则该注册将永久残留
+		c.system.removeFuture(agentRef)
+	}
 
 	envelop := mailbox.NewEnvelop(system, agentRef.ref, recipient, message)
 	receiverMailbox := c.system.findMailbox(recipient.(*Ref))
